@@ -403,6 +403,7 @@ Section Universe.
   | OGC
   | OSave
   | OReopen        (* close and oci.New on the same directory *)
+  | OSetAutoGC (b : bool)  (* assignment to the public field Store.AutoGC *)
   | OInject (k : nat).  (* not a store operation: node k's bytes are written as a blob file
                            behind the store's back ("garbage whose metadata is not stored") *)
 
@@ -416,11 +417,20 @@ Section Universe.
     | OGC => st_gc cfg o s
     | OSave => (do_save o s, ROk)
     | OReopen => (reopen s, ROk)
+    | OSetAutoGC _ => (s, ROk)     (* the field lives in [config]: see [next_cfg] *)
     | OInject k => (if mem k (blobs s) then s else mkStore (k :: blobs s) (res s) (gr s) (disk s), ROk)
     end.
 
-  Definition run (cfg : config) (h : list (op * orders)) (s : store) : store :=
-    fold_left (fun s oo => fst (step cfg s oo)) h s.
+  (* AutoGC may be changed between operations (AutoSaveIndex is fixed per history: after
+     switching it on, index.json is only current after the next save) *)
+  Definition next_cfg (cfg : config) (o : op) : config :=
+    match o with OSetAutoGC b => mkCfg (autosave cfg) b | _ => cfg end.
+
+  Fixpoint run (cfg : config) (h : list (op * orders)) (s : store) : store :=
+    match h with
+    | [] => s
+    | oo :: h' => run (next_cfg cfg (fst oo)) h' (fst (step cfg s oo))
+    end.
 
   (* ---------- observations (public API) ---------- *)
   Definition obs_tags (T : nat) (s : store) : list nat :=
